@@ -1,6 +1,7 @@
 """C07 — orbit state <-> Keplerian elements conversion is invertible and consistent.
 
-translate:   translator/extract_geodesy.py → Generated/PositionSystems.lean (registered conversions, constant.GM)
+translate:   translator/extract_geodesy.py → Generated/PositionSystems.lean (registered conversions, constant.GM);
+             translator/extract_kepler.py → Generated/KeplerShape.lean (einsum contractions, omega wrap, PQW @ column, hstack order)
 prove:       lean/Midgard/Props/C07.lean — two-body relations of `kepler2trs` output for all elements with
              cos²+sin² = 1 pairs (vis-viva, angular momentum, inclination/node/perigee direction pairs, r·v),
              Kepler's equation, true-anomaly half-angle relation, both inverses over ℝ, principal ranges,
@@ -47,9 +48,14 @@ def _imp():
 
 
 def translate():
-    from translator import extract_geodesy
+    from translator import extract_geodesy, extract_kepler
 
-    return extract_geodesy.write_all()
+    out = dict(extract_geodesy.write_all())
+    try:
+        out.update(extract_kepler.write_all())
+    except extract_kepler.Untranslatable as e:
+        out["KeplerShape.lean"] = f"not translated: {e}"
+    return out
 
 
 def gen_angle02pi(rng):
@@ -77,11 +83,14 @@ def angdiff(x, y):
 def run(ctx: Ctx):
     warnings.simplefilter("ignore")
     ctx.extra["translated"] = translate()
+    if isinstance(ctx.extra["translated"].get("KeplerShape.lean"), str):
+        gdisagree(ctx, "source tie: translator/extract_kepler.py cannot read the einsum / omega wrap / PQW product of transformation.py",
+                  {"fn": "extract_kepler"}, "the shapes described in translator/extract_kepler.py", ctx.extra["translated"]["KeplerShape.lean"])
     ctx.proof = common.prove("C07")
     leancheck(ctx, "C07")
     ctx.rule = ("elements: a in [6600 km, 60000 km], e in [0.001, 0.95] (log-dense at small e, both ends), i in [0.01, pi-0.01] "
                 "(incl. polar, both ends, retrograde), Omega/omega/E in [0, 2pi) with octant boundaries and +-1e-9/1e-4 "
-                "neighbourhoods; shapes (6,), (1,6), (n,6); both directions. Histories (after every second case, thorough tier: fourth): 1-6 objects, 4-14 "
+                "neighbourhoods; shapes (6,), (1,6), (n,6); both directions. Histories (after every second case, thorough tier: sixth; one more on Position trs/llh or PositionDelta trs/enu objects after every fourth of these): 1-6 objects, 4-14 "
                 "operations out of PosVel(...), to_system, obj[int|slice] views (and views of views), obj[[rows]] copies, "
                 "obj[key] = values with key int / slice / : / (row, column) / list of rows, written to the source, to a view, "
                 "to a view of a view, to the conversion handed out or to a view of it; 8 scripted shapes of the pattern convert -> "
@@ -103,7 +112,7 @@ def run(ctx: Ctx):
     gm_model = drv.ask1("c07 gm")
     if Fraction(gm_model) != frac(GM):
         gdisagree(ctx, "constant.GM (generated table)", {"fn": "GM"}, gm_model, GM)
-    n = ctx.budget(700, 35000)
+    n = ctx.budget(700, 32000)
     corpus = []
     hist_corpus = []
 
@@ -116,8 +125,8 @@ def run(ctx: Ctx):
 
     run_corpus(ctx, "C07", sort_corpus)
     for c in hist_corpus:
-        history_case(ctx, "corpus", recorded=c)
-    every = ctx.budget(2, 4)     # a history after every second (thorough tier: fourth) case
+        history_case(ctx, "corpus", recorded=c, family=c.get("family", "posvel"))
+    every = ctx.budget(2, 6)     # a history after every second (thorough tier: sixth) case
     for gi in range(len(corpus) + n):
         if gi < len(corpus):
             shape, els = corpus[gi]["shape"], [list(map(float, r)) for r in corpus[gi]["elements"]]
@@ -142,20 +151,32 @@ def run(ctx: Ctx):
             check_gm_sources(ctx)
         if gi % every == 0:
             history_case(ctx, c07_hist.TEMPLATES[(gi // every) % len(c07_hist.TEMPLATES)])
+        if gi % (4 * every) == 1:   # the same machinery on the other two-system classes (Position trs/llh, PositionDelta trs/enu)
+            history_case(ctx, c07_hist.TEMPLATES[(gi // (4 * every)) % len(c07_hist.TEMPLATES)], family=["position", "posdelta"][(gi // (4 * every)) % 2])
     check_gm_sources(ctx)
     ctx.traces = ctx.evaluations
 
 
-def history_case(ctx, template, recorded=None):
-    """a history of conversions, views and in-place writes on PosVel objects (harness/c07_hist.py)"""
-    PosVel, GM = _imp()
+def families():
+    """the position-array classes with two systems and a conversion each way; `posvel` is the one C07 is about, the other
+    two go through the same `PosBase.to_system` / `convert_to` / `__getitem__` / `__setitem__` code"""
+    from midgard.data.position import Position, PositionDelta
+
+    PosVel, _ = _imp()
+    return {"posvel": c07_hist.Family(PosVel, gen_elements), "position": c07_hist.PositionFamily(Position),
+            "posdelta": c07_hist.PositionDeltaFamily(PositionDelta, Position)}
+
+
+def history_case(ctx, template, recorded=None, family="posvel"):
+    """a history of conversions, views and in-place writes on position objects (harness/c07_hist.py)"""
+    _, GM = _imp()
     h = None
     try:
-        h = c07_hist.run_history(ctx, PosVel, GM, template, gen_elements, recorded)
+        h = c07_hist.run_history(ctx, families()[family], GM, template, gen_elements, recorded)
     except Exception as e:
-        gviolate(ctx, f"history:harness-raises:{type(e).__name__}", f"history ({template}) raised {type(e).__name__}: {e}", {"fn": "history", "template": template})
+        gviolate(ctx, f"history:harness-raises:{type(e).__name__}", f"history ({family}, {template}) raised {type(e).__name__}: {e}", {"fn": "history", "family": family, "template": template})
     if h is not None:
-        ctx.case({"fn": "history", "ops": h.ops, "lits": {k: np.asarray(v).tolist() for k, v in h.lits.items()}}, nontrivial=True)
+        ctx.case({"fn": "history", "family": family, "ops": h.ops, "lits": {k: np.asarray(v).tolist() for k, v in h.lits.items()}}, nontrivial=True)
 
 
 def check_gm_sources(ctx):
@@ -391,7 +412,7 @@ def replay(payload):
         return 0
     try:
         if c["fn"] == "history":
-            history_case(ctx, c.get("template", "recorded"), recorded=c)
+            history_case(ctx, c.get("template", "recorded"), recorded=c, family=c.get("family", "posvel"))
         elif c["fn"] == "use_source history":
             gm_history(ctx, c["source"], c["GM_source"], c["leave_block_by"], c["elements"])
         else:
